@@ -47,13 +47,11 @@ def run(prog, rep, tier):
     # the aliases are synonyms only as long as the built-in names are resolved before anything the caller defines
     # (a user variable called p, T or B must not capture them): C11's R11.2, reported here as R16.2
     from . import C11
-    sub = rep.sub()
-    C11.r11_2(prog, sub)
-    for it in sub.items:
-        it = dict(it)
-        it["rule"] = "R16.2"
-        rep.items.append(it)
-        rep.counts["R16.2"] = rep.counts.get("R16.2", 0) + 1
+    from ..core import reuse_rule
+    reuse_rule(rep, C11.r11_2, "R16.2", prog)
+    # ... which also needs the order of the namespace list itself (with_outer_namespace appends, lookups take the first hit):
+    # C11's R11.1
+    reuse_rule(rep, C11.r11_1, "R16.2", prog)
     rep.floor("R16.1", 10)
     rep.floor("R16.3", 6)
     rep.floor("R16.4", 5)
